@@ -106,6 +106,11 @@ class FortranDifferential(BoundedCheck):
         # max / min of more than two arguments (Fortran's intrinsics and Python's built-ins both take any number)
         for sc in ('Y = max(X, W, 1.5)', 'Y = min(X, W, U, 2.0) + max(X, W)', 'Y = max(min(X, W, U), 0.5, W - X)'):
             yield {'script': sc, 'seed': 4, 'kind': 'safe'}
+        # the build options of C03 (lags / leads replace, min_lags / min_leads only raise - and only what was not given explicitly):
+        # text only, except two that are compiled and solved
+        for lags, min_lags, leads, min_leads in itertools.product((None, 0, 1, 3), (0, 2), (None, 0, 2), (0, 1, 3)):
+            yield {'script': 'Y = 0.5 * Y[-1] + X[1] + {a} * Z[-2]', 'seed': 6, 'kind': 'declarations+compile' if (lags, min_lags, leads, min_leads) in ((3, 2, None, 3), (None, 2, 2, 1)) else 'declarations',
+                   'build': {'lags': lags, 'min_lags': min_lags, 'leads': leads, 'min_leads': min_leads}}
         # declarations of every size (the row-number lists are wrapped over continuation lines): text only, no compilation, except a few sizes
         for nvars in range(1, 131):
             terms = ' + '.join([f'X{i}' for i in range(nvars)] + [f'{{p{i}}}' for i in range(nvars // 3)])
@@ -120,9 +125,12 @@ class FortranDifferential(BoundedCheck):
         script = case['script']
         res.nontrivial.add(script)
         symbols = fsic.parse_model(script)
-        Py = fsic.build_model(symbols)
-        src = fsic.fortran.build_fortran_definition(symbols)
+        bkw = dict(case.get('build') or {})
+        Py = fsic.build_model(symbols, **bkw)
+        src = fsic.fortran.build_fortran_definition(symbols, **bkw)
         jcase = {'script': script, 'seed': case['seed'], 'kind': case['kind']}
+        if bkw:
+            jcase['build'] = bkw
 
         def bad(clause, sig, expected, observed, ob=''):
             out.append(Violation(clause, sig, jcase, expected, observed, ob))
